@@ -249,4 +249,43 @@ theorem mem_restrict {α : Type} [DecidableEq α] (k : α) (l : List (Item α)) 
     a ∈ restrict k l ↔ a ∈ l ∧ a.grp = k := by
   unfold restrict; simp [List.mem_filter]
 
+/-! ### helpers of the completeness theorems -/
+
+theorem nodup_of_map_nodup {β γ : Type} (f : β → γ) (l : List β) (h : (l.map f).Nodup) : l.Nodup := by
+  rw [List.Nodup, List.pairwise_map] at h
+  exact h.imp (fun hne e => hne (congrArg f e))
+
+theorem nodup_map_on {β γ : Type} (f : β → γ) (l : List β) (d : l.Nodup)
+    (H : ∀ x ∈ l, ∀ y ∈ l, f x = f y → x = y) : (l.map f).Nodup := by
+  rw [List.Nodup, List.pairwise_map]
+  exact (List.Pairwise.and_mem.1 d).imp (fun h e => h.2.2 (H _ h.1 _ h.2.1 e))
+
+/-- a result whose every group is a sublist of a duplicate-free input has no duplicate either -/
+theorem nodup_of_groups_sublist {α : Type} [DecidableEq α] (items out : List (Item α)) (hI : items.Nodup)
+    (hR : ∀ k, (restrict k out).Sublist items) : out.Nodup := by
+  rw [List.nodup_iff_count]
+  intro a
+  have h1 : List.count a (restrict a.grp out) = List.count a out := by
+    unfold restrict
+    exact List.count_filter (by simp)
+  rw [← h1]
+  exact Nat.le_trans ((hR a.grp).count_le a) (List.nodup_iff_count.1 hI a)
+
+/-- converse of `groupsInOrder_sublist` -/
+theorem groupsInOrder_of_sublist {α : Type} [DecidableEq α] (items out : List (Item α))
+    (h : ∀ k, (restrict k out).Sublist items) : groupsInOrder items out = true := by
+  unfold groupsInOrder
+  rw [List.all_eq_true]
+  intro k _
+  exact List.isSublist_iff_sublist.2 (h k)
+
+/-- `farPairs` is the Boolean form of `Pairwise` -/
+theorem farPairs_iff {α : Type} (dn dd : Nat) (l : List (Peak α)) :
+    farPairs dn dd l = true ↔
+      l.Pairwise (fun p q => (dn : Int) * dn < vd2 p.x p.y p.z q.x q.y q.z * ((dd : Int) * dd)) := by
+  induction l with
+  | nil => simp [farPairs]
+  | cons p t ih =>
+    simp only [farPairs, Bool.and_eq_true, List.all_eq_true, decide_eq_true_eq, List.pairwise_cons, ih]
+
 end CryoCat.C07
